@@ -47,7 +47,14 @@ def drive_life(recipe):
     pipes, reqs = recipe['pipes'], recipe['reqs']
     w = World(pipes)
     out, hits = [], []
+    peek = recipe.get('peek')
     for n, (op, tgt) in enumerate(reqs):
+        if peek is not None and (n * 7 + peek) % 3 == 0:
+            # a scheduler listing the assignable operators (both ways) between two requests: pure queries
+            from eudoxia.workload.runtime_status import ASSIGNABLE_STATES
+            for p in w.pipes:
+                p.runtime_status().get_ops(ASSIGNABLE_STATES, require_parents_complete=False)
+                p.runtime_status().get_ops(ASSIGNABLE_STATES, require_parents_complete=True)
         before = w.states()
         try:
             w.ops[op].transition(OST[tgt])
@@ -146,7 +153,10 @@ def run(ctx):
             except Exception:
                 if tgt == 2:
                     dist['starts_refused'] += 1
-        c, h = drive_life(dict(gen='G-life-dep', pipes=pipes, reqs=reqs))
+        rec = dict(gen='G-life-dep', pipes=pipes, reqs=reqs)
+        if i % 2:
+            rec['peek'] = i % 3
+        c, h = drive_life(rec)
         cases.append(c)
         hits += h
         dist['life_histories'] += 1
